@@ -9,7 +9,8 @@ import random
 
 CHORD_LABELS = ["N", "X", "C", "C:maj", "A:min", "G:7", "D:maj7", "F#:min7", "Bb:maj/3", "E:sus4", "C:maj(9)",
                 "A:min/b3", "D:7(#9)", "G:hdim7", "B:dim", "Eb:aug", "C:maj6", "C:9", "F:min9", "A:(1,3,5)",
-                "C/5", "D:maj(*3)", "Ab:min6", "E:dim7", "G:sus2", "C#:minmaj7", "F:maj13", "B:1", "D:5"]
+                "C/5", "D:maj(*3)", "Ab:min6", "E:dim7", "G:sus2", "C#:minmaj7", "F:maj13", "B:1", "D:5",
+                "C:9(#11)", "A:min9(*5)", "G:maj13(b7)/3", "E:11(b9)", "Bb:maj9(13)"]
 SEG_LABELS = ["A", "B", "C", "a", "intro", "verse", "chorus", "Verse", "bridge", "outro", "Z"]
 KEYS = ["C major", "c minor", "F# minor", "Db major", "Bb minor", "a minor", "G other", "E major", "Ab major"]
 SCALE_DEGREES = ["1", "b3", "3", "5", "b7", "7", "#9", "b13", "4", "#11", "*3", "9"]
